@@ -72,6 +72,14 @@ func c05Sites() []c05Site {
 	for _, x := range objs {
 		out = append(out, c05Site{Pos: "allOf", Text: "{}", Ann: fmt.Sprintf(`{allOf: %q}`, x), Names: []string{x}})
 	}
+	// names written with a JSON escape are the same names
+	out = append(out, c05Site{Pos: "escaped-name", Text: `"v"`, Ann: `{type: "\u0040s"}`, Names: []string{"@s"}})
+	out = append(out, c05Site{Pos: "escaped-name", Text: `"v"`, Ann: `{type: "@\u0074"}`, Names: []string{"@t"}})
+	out = append(out, c05Site{Pos: "escaped-name", Text: `"v"`, Ann: `{or: ["\u0040t", "@\u006f"]}`, Names: []string{"@t", "@o"}})
+	out = append(out, c05Site{Pos: "escaped-name", Text: `"v"`, Ann: `{or: [{type: "\u0040s"}, {type: "intege\u0072"}]}`, Names: []string{"@s"}})
+	out = append(out, c05Site{Pos: "escaped-name", Text: "{}", Ann: `{allOf: "\u0040o"}`, Names: []string{"@o"}})
+	out = append(out, c05Site{Pos: "escaped-name", Text: "{}", Ann: `{allOf: ["@\u006f", "\u0040q"]}`, Names: []string{"@o", "@q"}})
+	out = append(out, c05Site{Pos: "escaped-name", Text: "{}", Ann: `{additionalProperties: "\u0040s"}`, Names: []string{"@s"}})
 	out = append(out, c05Site{Pos: "allOf-list", Text: "{}", Ann: `{allOf: ["@o", "@q"]}`, Names: []string{"@o", "@q"}})
 	// an heir whose own property is an heir again, and references below an heir
 	out = append(out, c05Site{Pos: "allOf-nested", Text: "{ // {allOf: \"@o\"}\n\t\"in\": {} // {allOf: \"@p\"}\n}", Names: []string{"@o", "@p"}, Multi: true})
